@@ -3,6 +3,8 @@ import os
 import numpy as np
 import nets
 
+os.environ["VERIF_NOFUZZ"] = "1"      # this check drives its own histories and compares memo occupancy with the model
+
 PID = "C12"
 THEOREMS = ["Inv_init", "step_correct", "history_independent", "reachable_inv", "mutators_take_effect"]
 RULE = ("random histories of 1..12 public queries and mutators (rank, isvalid, idxs_pit, idxs_seq, nnodes, idxs_us_main, "
@@ -31,7 +33,7 @@ CORPUS = [
     [(8, 0), (7, 0)], [(7, 0), (8, 0)], [(8, 0), (7, 0), (8, 0)],                                # classic vs Strahler memo
     [(11, 1), (11, 1)], [(11, 1), (10, 0)], [(11, 1), (11, 0), (11, 1)],                         # repeated unit conversions
     [(21, 1), (21, 0)], [(21, 1), (9, 0)], [(9, 0), (21, 2), (21, 0)], [(21, 0), (18, 1), (21, 0)], [(21, 2), (18, 0), (9, 0)],   # stream distance vs distnc memo
-    [(16, 5), (11, 0), (13, 0)], [(16, 4), (3, 0), (12, 1)],                                     # add_pits (odd position: repeated index) then accumulate
+    [(16, 5), (11, 0), (13, 0)], [(16, 4), (3, 0), (12, 1)], [(13, 0), (16, 5), (13, 0)], [(13, 0), (17, 1), (13, 0)],   # basins before / after mutators                                     # add_pits (odd position: repeated index) then accumulate
 ]
 
 
@@ -41,13 +43,14 @@ def corpus():
     dsl = [0, 0, 1, 4, 3, 1]      # 3 <-> 4 loop
     for ops in CORPUS:
         for raster in (1, 0):
-            if not raster and any(c in (9, 10, 18, 21) or (c == 11 and a) for c, a in ops):
+            if not raster and any(c in (9, 10, 13, 18, 21) or (c == 11 and a) for c, a in ops):
                 continue
             for cache in (1, 0):
                 net = dsl if any(c == 17 for c, _ in ops) else ds
                 ops2 = [(c, (1 if c == 17 else a)) for c, a in ops]
-                out.append({"k": 1201, "args": [[raster, cache], [x for p in ops2 for x in p]],
-                            "call": {"ds": net, "seed": 7}, "group": "corpus"})
+                for hasarea in ((0, 1) if not raster else (0,)):
+                    out.append({"k": 1201, "args": [[raster, cache, hasarea], [x for p in ops2 for x in p]],
+                                "call": {"ds": net, "seed": 7}, "group": "corpus"})
     return out
 
 
@@ -93,8 +96,9 @@ def cases(tier, rng):
             if not raster and c == 13:
                 c = 2          # the vector class has no basins(): query the pits instead
             ops.append((c, a))
-        yield {"k": 1201, "args": [[raster, cache], [x for p in ops for x in p]],
-               "call": {"ds": ds, "seed": rng.randrange(10**6)}, "group": f"rand-{'raster' if raster else 'vector'}-cache{cache}"}
+        hasarea = int((not raster) and rng.random() < 0.5)       # vector objects built with user node areas
+        yield {"k": 1201, "args": [[raster, cache, hasarea], [x for p in ops for x in p]],
+               "call": {"ds": ds, "seed": rng.randrange(10**6)}, "group": f"rand-{'raster' if raster else 'vector'}-cache{cache}" + ("-area" if hasarea else "")}
 
 
 def _arr(kind, k, n):
@@ -124,7 +128,8 @@ def impl(case):
     from pyflwdir.flwdir import Flwdir
     from affine import Affine
     a = case["args"]
-    raster, cache = a[0]
+    raster, cache = a[0][0], a[0][1]
+    hasarea = a[0][2] if len(a[0]) > 2 else 0
     codes = a[1]
     ops = list(zip(codes[0::2], codes[1::2]))
     ds0 = case["call"]["ds"]
@@ -132,11 +137,14 @@ def impl(case):
     rng = random.Random(case["call"]["seed"])
     shape = (1, n)
 
+    user_area = (np.random.RandomState(n + 17).randint(1, 40, size=n) / 4.0).astype(np.float32)
+    area_on = [bool(hasarea)]        # a dumped and re-loaded vector object has lost its node areas
+
     def build(idxs_ds, transform, latlon, cacheflag):
         arr = np.array(idxs_ds, dtype=np.int32).copy()
         if raster:
             return pyflwdir.FlwdirRaster(idxs_ds=arr, shape=shape, ftype="d8", transform=transform, latlon=latlon, cache=bool(cacheflag))
-        return Flwdir(idxs_ds=arr, cache=bool(cacheflag))
+        return Flwdir(idxs_ds=arr, area=user_area.copy() if area_on[0] else None, cache=bool(cacheflag))
     tr = Affine(0.5, 0.0, 100.0, 0.0, -0.5, 40.0)
     latlon = False
     obj = build(ds_array(ds0), tr, latlon, cache)
@@ -192,7 +200,8 @@ def impl(case):
         flag = 1
         if c <= 15 or c == 21:
             st, v = call_impl(query, obj, c, arg, timeout=2)
-            fresh = build(np.asarray(obj.idxs_ds).copy(), obj.transform if raster else None, getattr(obj, "latlon", False), obj.cache)
+            # the reference object always caches: a result may depend neither on the history nor on the cache setting
+            fresh = build(np.asarray(obj.idxs_ds).copy(), obj.transform if raster else None, getattr(obj, "latlon", False), True)
             st2, v2 = call_impl(query, fresh, c, arg, timeout=2)
             if st != st2 or (st == "ok" and not _same(v, v2)):
                 flag = 0
@@ -219,6 +228,7 @@ def impl(case):
             obj.dump(fn)
             obj = (pyflwdir.FlwdirRaster if raster else Flwdir).load(fn)
             os.remove(fn)
+            area_on[0] = False
         out.append(occ(obj) + [flag])
     return out
 
